@@ -257,8 +257,9 @@ class MListOf(Ty):
     (pyvc.mlist.MList): results accumulated in loops, out-parameters.  In `M.loop(... modifies=...)` the
     list is havocked in place."""
 
-    def __init__(self, elem):
+    def __init__(self, elem, deque=False):
         self.elem = elem
+        self.deque = deque      # a collections.deque (without maxlen): additionally popleft / appendleft
 
     def shape(self):
         return _mshape(self.elem)
@@ -269,6 +270,7 @@ class MListOf(Ty):
         n = interp.st.fresh_int(name + '.len')
         interp.st.assume(n >= 0)
         m.length = n
+        m.is_deque = self.deque
         return m
 
 
@@ -292,12 +294,18 @@ class IterOf(Ty):
     """An iterator over a sequence of symbolic length (e.g. the lines of a file), positioned at its start.
     In clauses: `it.xs` is the underlying sequence, `it.pos` the number of items consumed so far."""
 
-    def __init__(self, elem):
+    def __init__(self, elem, at_start=True):
         self.elem = elem
+        self.at_start = at_start      # False: an arbitrary number of items has been consumed already
 
     def make(self, interp, name):
         from .models import SIter
-        return SIter(ListOf(self.elem).make(interp, name), 0)
+        xs = ListOf(self.elem).make(interp, name)
+        if self.at_start:
+            return SIter(xs, 0)
+        p = interp.st.fresh_int(name + '.pos')
+        interp.st.assume(z3.And(p >= 0, p <= xs.length))
+        return SIter(xs, SInt(p))
 
 
 class FixedList(Ty):
